@@ -502,11 +502,44 @@ func runProbes(r *verdict.Run, own, tier string) {
 			}
 		}
 	}
+	if own == "C03" {
+		// transactions that name a victim but were not signed by it (every signature/key mutation of C04 that
+		// an independent verification finds not authentic): delivered by a proposer that skips its own check,
+		// they must not move anything out of the victim's holdings. The signers recorded for the monitor are
+		// the addresses whose signature really verifies.
+		for _, wm := range warms {
+			rng := rand.New(rand.NewSource(wm.seed * 7))
+			bases := wm.freshBases(1)
+			for _, u := range []*world.Account{wm.w.Users[0], wm.w.Users[3%len(wm.w.Users)]} {
+				m := &txb.Memo{Tag: fmt.Sprintf("c03-keyed-%d-%s", wm.h, u.Name)}
+				tx := txb.Tx(txb.Send(u.Addr, wm.w.Users[1].Addr, "OLT", "400000000000000000000"), txb.DefaultFee(), m.Next(), u)
+				bases = append(bases, hist.TxSpec{Kind: "SEND", Bytes: tx, Note: "transfer from a " + u.Priv.Keytype.String() + " account", Signers: []string{u.Addr.String()}})
+			}
+			for _, b := range bases {
+				if b.Kind == "OLVM" {
+					continue
+				}
+				for _, m := range mutants(wm, b, rng) {
+					if strings.HasPrefix(m.name, "payload") || strings.HasPrefix(m.name, "fee") || m.name == "memo" || m.name == "type" {
+						continue
+					}
+					if authentic(wm, b, m.bytes) {
+						continue
+					}
+					sp := hist.TxSpec{Kind: b.Kind, Bytes: m.bytes, Note: b.Note + " / " + m.name, Signers: verifiedSigners(m.bytes), Force: true}
+					jobs = append(jobs, job{wm, hostile{Spec: sp, Kind: b.Kind, Field: "<signatures>", Trait: "forged=" + m.name}})
+				}
+			}
+		}
+	}
 	r.Gate("probes", 20)
 	parallel(len(jobs), 14, func(i int) {
 		j := jobs[i]
-		o := j.wm.runProbe(j.h.Spec.Bytes, j.h.Spec, true, false, 6, false)
-		id := fmt.Sprintf("probe/%d/%s/%s/%s", j.wm.h, j.h.Kind, j.h.Field, j.h.Trait)
+		o := j.wm.runProbe(j.h.Spec.Bytes, j.h.Spec, true, j.h.Spec.Force, 6, false)
+		id := fmt.Sprintf("probe/%d/%s/%s/%s/%s", j.wm.h, j.h.Kind, j.h.Field, j.h.Trait, cut(j.h.Spec.Note, 30))
+		if j.h.Spec.Force {
+			r.Count("forged_probes", 1)
+		}
 		if o.Err != nil {
 			r.Diag(id + ": " + o.Err.Error())
 			r.Case(id, false)
@@ -555,4 +588,21 @@ func runProbes(r *verdict.Run, own, tier string) {
 	if len(jobs) > 0 {
 		r.Sample(map[string]interface{}{"probe": jobs[0].h.Kind + "." + jobs[0].h.Field + " " + jobs[0].h.Trait, "tx": cut(string(jobs[0].h.Spec.Bytes), 400)})
 	}
+}
+
+// verifiedSigners lists the addresses whose signature over the transaction's signed content verifies with
+// the crypto libraries (independently of the repository's key handlers).
+func verifiedSigners(tx []byte) []string {
+	st := &action.SignedTx{}
+	if json.Unmarshal(tx, st) != nil {
+		return nil
+	}
+	var out []string
+	rb := st.RawTx.RawBytes()
+	for _, sg := range st.Signatures {
+		if addr, ok := libVerify(sg.Signer.KeyType, sg.Signer.Data, rb, sg.Signed); ok {
+			out = append(out, addr)
+		}
+	}
+	return out
 }
